@@ -139,13 +139,24 @@ def render_zoneinfo(case):
 
 def render_vmstat(case):
     v = case["vmstat"]
-    out = ["nr_free_pages 16301757\n", "nr_zone_inactive_anon 47420\n", "nr_dirty 69\n", "pgpgin 1908602\n",
-           "pgpgout 44592\n"]
+    # layout: where the swap counters sit in the file ("full" = mm/vmstat.c; the others = a trimmed table as a
+    # container shim / minimal procfs serves it: counters first, last, alone, or in the other order)
+    layout = v.get("layout", "full")
+    head = ["nr_free_pages 16301757\n", "nr_zone_inactive_anon 47420\n", "nr_dirty 69\n", "pgpgin 1908602\n",
+            "pgpgout 44592\n"]
+    tail = ["pgalloc_dma 0\n", "pgfree 29383756\n", "pgfault 31266312\n", "swap_ra 0\n", "swap_ra_hit 0\n"]
+    mid = []
     if v.get("swp") is not None:
-        out.append("pswpin %d\n" % v["swp"][0])
-        out.append("pswpout %d\n" % v["swp"][1])
-    out += ["pgalloc_dma 0\n", "pgfree 29383756\n", "pgfault 31266312\n", "swap_ra 0\n", "swap_ra_hit 0\n"]
-    return "".join(out).encode()
+        mid = ["pswpin %d\n" % v["swp"][0], "pswpout %d\n" % v["swp"][1]]
+        if layout.endswith("rev"):
+            mid.reverse()
+    if layout.startswith("last"):
+        tail = []
+    elif layout.startswith("first"):
+        head = []
+    elif layout.startswith("only"):
+        head = tail = []
+    return "".join(head + mid + tail).encode()
 
 
 # ----------------------------------------------------------------------------------------------
@@ -262,6 +273,8 @@ def gen_case(rng):
             swp = [rng.choice([0, rng.randrange(0, 10**6), rng.randrange(0, 2**38)]),
                    rng.choice([0, rng.randrange(0, 10**6), rng.randrange(0, 2**38)])]
         vm = dict(swp=swp)
+        if rng.random() < 0.3:
+            vm["layout"] = rng.choice(["last", "first", "only", "lastrev", "onlyrev", "fullrev"])
     if zones is not None:
         zones = [min(z, 2**38) for z in zones]
     return dict(mem=mem, zones=zones, zstyle=rng.choice([0, 0, 1, 2]), vmstat=vm, filler=rng.random() < 0.8,
